@@ -147,6 +147,9 @@ func VerifC05_Concurrent() {
 	}
 	verifReach("C05/conc/started")
 	verifEncodeLockBegin()
+	// the client's own bookkeeping (result entries, signal channels, flags) is shared between the callers and the
+	// read loop: every location written from here on must have a common lock over all its accesses
+	verifSharedBegin(sess.client)
 	n1, n2 := nondetInt64("n1"), nondetInt64("n2")
 	var wg sync.WaitGroup
 	var r1, r2 ExecutionResult
@@ -171,6 +174,7 @@ func VerifC05_Concurrent() {
 	verifAssert("C05/conc/close", cerr == nil)
 	sess.srvDone.Wait()
 	verifEncodeLockCheck("C05/conc/writes-serialised")
+	verifSharedCheck("C05/conc/client-state-accessed-under-its-mutex")
 	verifReach("C05/conc/end")
 }
 
